@@ -307,6 +307,26 @@ def run(ctx):
                 ctx.ob("C04.R3g", inst, A.releases(a.order) and A.acquires(a.fail_order), a.node.where,
                        "retire list head CAS must be acq_rel (publishes node->next, takes ownership of the old list)")
 
+        # the retired node is linked to the head value the CAS expects, on every attempt
+        if fn.name == "retire":
+            for a in hops:
+                if a.op != "cas":
+                    continue
+                exp = strip_cast(ig.rarg(a.node, 0))
+                links = []
+                for n in ig.ev_nodes(lambda n: n.id in live and n.ev["e"] == "asg" and n.ev.get("op") == "="):
+                    lhs = strip_cast(n.ev.get("lhs"))
+                    if isinstance(lhs, dict) and lhs.get("k") == "f" and lhs.get("n") == "next":
+                        rhs = ig.resolve(n.ev["rhs"], n.frame)
+                        if const_val(rhs) == "null" or L.deep_find(
+                                ig, rhs, lambda d: isinstance(exp, dict) and d.get("k") == exp.get("k") and
+                                d.get("id") == exp.get("id") and d.get("k") == "l", through_args=True) is not None:
+                            links.append(n)
+                ctx.ob("C04.R3h", inst, L.relinked_on_retry(ig, live, a.node, links), a.node.where,
+                       "a retired table must be linked to the list head the CAS expects on every attempt (or to nothing when the "
+                       "old list is being detached): a retry with a stale link drops retired tables (leak) or re-links freed ones",
+                       site="%s@relink" % inst)
+
     # ------------------------------------------------------------- R4 constants
     exps = fb.find(pred=lambda f: RETIRE_REC.match(f.record or "") and f.name == "expire" and f.has_cfg())
     stamps = fb.find(pred=lambda f: RETIRE_REC.match(f.record or "") and f.name == "get_current_timestamp" and f.has_cfg())
